@@ -9,6 +9,6 @@ ls seeded | while read n; do
   extra=""
   [ -f seeded/$n/also.txt ] && extra=$(cat seeded/$n/also.txt)
   prop=$(python3 -c "import json;print(json.load(open('seeded/$n/meta.json'))['property'])")
-  echo "$n $prop $extra"
+  echo "$n $prop $extra" | sed "s/[[:space:]]*$//"
 done | SEEDED_JOBS=$J xargs -P $P -L 1 sh -c 'python3 tools/seeded.py run-scratch "$@" 2>&1 | grep " on " | cut -c1-200' _
 python3 tools/seeded.py table
